@@ -41,6 +41,8 @@ struct Model {
     style: DocStyle,
     doc: String,
     n_sentinels: usize,
+    /// block doc comment in gutter style: every line starts with ` * `, paragraphs are separated by a bare ` *` line
+    gutter: bool,
     /// split into several doc attributes (several `///` lines) instead of one
     lines: usize,
 }
@@ -61,7 +63,12 @@ fn render(m: &Model) -> String {
             return String::new();
         }
         let mut out = String::new();
-        let mut docs = vec![Doc { text: m.doc.clone(), style: m.style }];
+        let text = if m.gutter && m.style == DocStyle::Block {
+            format!("\n * {}\n *\n * closing paragraph\n ", m.doc.trim_start().replace('\n', "\n *\n * "))
+        } else {
+            m.doc.clone()
+        };
+        let mut docs = vec![Doc { text, style: m.style }];
         for k in 1..m.lines {
             docs.push(Doc { text: format!(" extra line {k} ZQX9{:03}", k), style: DocStyle::Line });
         }
@@ -248,7 +255,7 @@ pub fn run(ctx: &Ctx) -> (Spec, Report) {
     let n_exh = seqs.len();
     let n = n_exh + ctx.tier.pick(4000, 40_000);
     // doc-free twin definitions per language
-    let twin_src = render(&Model { units: vec![], position: 99, style: DocStyle::Line, doc: String::new(), n_sentinels: 0, lines: 1 });
+    let twin_src = render(&Model { units: vec![], position: 99, style: DocStyle::Line, doc: String::new(), n_sentinels: 0, lines: 1, gutter: false });
     let mut twin_defs: Vec<(LangId, BTreeSet<String>)> = vec![];
     {
         let files = crate::sut::single_file(&twin_src);
@@ -272,7 +279,7 @@ pub fn run(ctx: &Ctx) -> (Spec, Report) {
             let units: Vec<usize> = if i < n_exh { seqs_ref[i].clone() } else { (0..rng.range(1, 12)).map(|_| rng.below(nu)).collect() };
             let (doc, n_sentinels) = build_doc(&units);
             let style = *rng.pick(&[DocStyle::Line, DocStyle::Block, DocStyle::Attr]);
-            let m = Model { units, position: if i < n_exh { i % POSITIONS.len() } else { rng.below(POSITIONS.len()) }, style, doc, n_sentinels, lines: if rng.chance(1, 3) { rng.range(2, 3) } else { 1 } };
+            let m = Model { units, position: if i < n_exh { i % POSITIONS.len() } else { rng.below(POSITIONS.len()) }, style, doc, n_sentinels, lines: if rng.chance(1, 3) { rng.range(2, 3) } else { 1 }, gutter: rng.coin() };
             let src = render(&m);
             let langs = ALL_LANGS.iter().map(|l| (*l, LangCfg::basic(*l))).collect();
             Gen { model: m, files: vec![SrcFile { path: "src/lib.rs".into(), source: src }], multi: false, langs }
@@ -282,7 +289,7 @@ pub fn run(ctx: &Ctx) -> (Spec, Report) {
     rep.count("exhaustive_unit_sequences", n_exh as u64);
     let spec = Spec {
         level: "exploration",
-        rule: format!("doc strings built from the units {{newline, */, /*, //, \"\"\", ''', backslash, #, backtick, plain text, \\u, \\x, \\N{{, \\\"\"\", \"\"\"\", \", **/}} with a sentinel after every unit: all {n_exh} sequences of length 1-3 (positions cycled), then random sequences up to length 12; written as ///, /** */ or #[doc = \"..\"], optionally followed by further doc lines; attached to type, field, unit-enum variant, tagged-enum variant, struct-variant field or alias; 6 languages; every sentinel occurrence in the output is classified by the language's tokeniser (CPython tokenize/ast for Python) and must lie in a comment/docstring; the output must tokenise, parse and define exactly what the doc-free twin defines; distinct = (language, position, doc spelling, unit sequence)"),
+        rule: format!("doc strings built from the units {{newline, */, /*, //, \"\"\", ''', backslash, #, backtick, plain text, \\u, \\x, \\N{{, \\\"\"\", \"\"\"\", \", **/}} with a sentinel after every unit: all {n_exh} sequences of length 1-3 (positions cycled), then random sequences up to length 12; written as ///, /** */ (plain or in gutter style with bare ` *` paragraph lines) or #[doc = \"..\"], optionally followed by further doc lines; attached to type, field, unit-enum variant, tagged-enum variant, struct-variant field or alias; 6 languages; every sentinel occurrence in the output is classified by the language's tokeniser (CPython tokenize/ast for Python) and must lie in a comment/docstring; the output must tokenise, parse and define exactly what the doc-free twin defines; distinct = (language, position, doc spelling, unit sequence)"),
         assumptions: vec!["comment/docstring spans come from this harness's lexers and from CPython".into()],
         exhaustive: Some(true),
     };
